@@ -110,7 +110,8 @@ def _end_to_end(case, wd, out, primary):
         dom["halo"] = xmax / 3
     cfg = parse_config_dict({
         "domain": dom, "towers": [{"name": "T", "lat": lat, "lon": lon, "z_m": case["zm"]}],
-        "met": {"z0": case["z0"], "mol": case["mol"], "wind_speed": U, "wind_dir": wd},
+        # compass directions arrive as integers from YAML (`wind_dir: 270`)
+        "met": {"z0": case["z0"], "mol": case["mol"], "wind_speed": U, "wind_dir": int(wd) if float(wd).is_integer() else wd},
         "solver": {"closure": case["closure"], "footprint": True, "precision": "double"},
     })
     try:
